@@ -13,7 +13,9 @@ rsync -a --exclude .git /repo/ "$D/tree"/ || exit 2
 tests_rc=$?
 npass=$(grep -c '^PASS:' "$D/check.log")
 build() { # srcdir out
-  mkdir -p "$D/b" && cp "$1"/src/confuse.c "$1"/src/confuse.h "$1"/src/compat.h "$1"/src/lexer.l /repo/config.h "$SRC/demo.c" "$D/b/" && (cd "$D/b" && flex -Pcfg_yy -olexer.c lexer.l && clang -g -fsanitize=address,undefined -DHAVE_CONFIG_H -I. -D_GNU_SOURCE -DBUILDING_DLL -DLOCALEDIR=\"/x\" -w confuse.c lexer.c demo.c -o "$2") 2>"$D/build.err"
+  EXTRA=""
+  if [ -f "$SRC/failalloc.h" ]; then mkdir -p "$D/b"; cp "$SRC/failalloc.h" "$D/b/"; EXTRA="-include failalloc.h"; fi   # allocation-failure injection (C18)
+  mkdir -p "$D/b" && cp "$1"/src/confuse.c "$1"/src/confuse.h "$1"/src/compat.h "$1"/src/lexer.l /repo/config.h "$SRC/demo.c" "$D/b/" && (cd "$D/b" && flex -Pcfg_yy -olexer.c lexer.l && clang -g -fsanitize=address,undefined -DHAVE_CONFIG_H -I. -D_GNU_SOURCE -DBUILDING_DLL -DLOCALEDIR=\"/x\" -w $EXTRA confuse.c lexer.c demo.c -o "$2") 2>"$D/build.err"
 }
 build /repo "$D/demo_clean" || { echo "$NAME: demo does not build on the clean tree"; cat "$D/build.err" | head; exit 2; }
 build "$D/tree" "$D/demo_mut" || { echo "$NAME: demo does not build on the patched tree"; exit 2; }
@@ -23,6 +25,7 @@ echo "$NAME: tests rc=$tests_rc pass=$npass; demo clean rc=$rc_clean, patched rc
 if [ $tests_rc -eq 0 ] && [ $rc_clean -eq 0 ] && [ $rc_mut -ne 0 ]; then
   mkdir -p "$VERIF/seeded/$NAME"
   cp "$SRC/patch.diff" "$SRC/demo.c" "$VERIF/seeded/$NAME/"
+  [ -f "$SRC/failalloc.h" ] && cp "$SRC/failalloc.h" "$VERIF/seeded/$NAME/"
   python3 - "$SRC/meta.json" "$VERIF/seeded/$NAME/meta.json" "$npass" "$rc_clean" "$rc_mut" <<'PY'
 import json,sys
 m=json.load(open(sys.argv[1]))
